@@ -3,8 +3,8 @@ package main
 // C13 — parsing depends only on the text: not on chunking, not on history.
 
 import (
-	"go/ast"
 	"fmt"
+	"go/ast"
 	"go/token"
 	"go/types"
 	"sort"
